@@ -11,6 +11,7 @@ type genCtx struct {
 	rng       *rand.Rand
 	target    *site // slice site forced to targetLen (nil: none)
 	targetLen int
+	targetNil bool // a zero-length target is nil (else empty, non-nil)
 	done      bool // target already placed
 	off       bool // target disabled in this subtree
 	light     bool // inside a long target slice: keep elements small
@@ -192,7 +193,7 @@ func (g *genCtx) fill(n *node, v reflect.Value) {
 func (g *genCtx) pickLen(s *site) (int, bool) {
 	if g.target == s && !g.done && !g.off {
 		g.done = true
-		return g.targetLen, g.rng.Intn(2) == 0
+		return g.targetLen, !g.targetNil
 	}
 	return g.smallLen()
 }
